@@ -99,16 +99,19 @@ def route (s : State) (e : Event) : Option (Nat × Event) :=
     | none => s.fallback.map fun f => (f, e)
 
 /-- `add_rule(sink, policy, do_start_stop_run, …)` up to (not including) the immediate `sink.startTestRun()`:
-new state, the sink to start at once (flag set and a run in progress), what the call does if that start returns -/
+new state, the sink to start at once (flag set, the sink OBJECT not in `_sinks` yet - `not any(s is sink for s in
+self._sinks)` - and a run in progress), what the call does if that start returns.  Sink numbers are object identities. -/
 def regStep (s : State) : Op → State × Option Nat × Res
   | .addPrefix sink pfx consume flag =>
     if pfx.contains '/' then (s, none, .raised "TypeError")
     else
       let s1 := { s with prefixes := dictSet s.prefixes pfx (sink, consume) }
-      if flag then ({ s1 with sinks := s1.sinks ++ [sink] }, if s.inRun then some sink else none, .ok) else (s1, none, .ok)
+      if flag && !s.sinks.contains sink then ({ s1 with sinks := s1.sinks ++ [sink] }, if s.inRun then some sink else none, .ok)
+      else (s1, none, .ok)
   | .addId sink tid flag =>
     let s1 := { s with ids := dictSet s.ids tid sink }
-    if flag then ({ s1 with sinks := s1.sinks ++ [sink] }, if s.inRun then some sink else none, .ok) else (s1, none, .ok)
+    if flag && !s.sinks.contains sink then ({ s1 with sinks := s1.sinks ++ [sink] }, if s.inRun then some sink else none, .ok)
+    else (s1, none, .ok)
   | .addBad _ _ => (s, none, .raised "ValueError")
   | _ => (s, none, .ok)
 
